@@ -36,9 +36,11 @@ func vRetry(o backoff.Operation, b backoff.BackOff) error {
 var vErrBroken = errors.New("stream broken")
 
 type vWorldRPC struct {
-	opened   int
-	streams  []*vStream
-	recvCall int
+	cancel      context.CancelFunc
+	cancelledAt int // the caller cancelled its context during this reopen attempt (0: never)
+	opened      int
+	streams     []*vStream
+	recvCall    int
 }
 
 // vStream: one server stream; outcomes of its calls are symbolic.
@@ -77,6 +79,10 @@ func (s *vStream) RecvMsg(m any) error {
 
 func (w *vWorldRPC) streamer(ctx context.Context, desc *grpc.StreamDesc, cc *grpc.ClientConn, method string, opts ...grpc.CallOption) (grpc.ClientStream, error) {
 	w.opened++
+	if w.opened > 1 && w.cancelledAt == 0 && w.cancel != nil && vBool(fmt.Sprintf("caller_cancels_during_open%d", w.opened)) {
+		w.cancel() // the caller gives up while the client is busy reopening
+		w.cancelledAt = w.opened
+	}
 	if w.opened > 1 && vBool(fmt.Sprintf("open%d_fails", w.opened)) {
 		return nil, vErrBroken
 	}
@@ -95,8 +101,13 @@ func VerifStreamRetry(arg string) {
 		method = "/pb.CoreRPC/WorkloadStatusStream"
 	}
 	w := &vWorldRPC{}
+	ctx, cancel := context.WithCancel(context.Background())
+	defer cancel()
+	if vParam(arg, "cancel", 0) == 1 {
+		w.cancel = cancel
+	}
 	icpt := NewStreamRetry(RetryOptions{Max: max})
-	stream, err := icpt(context.Background(), &grpc.StreamDesc{}, nil, method, w.streamer)
+	stream, err := icpt(ctx, &grpc.StreamDesc{}, nil, method, w.streamer)
 	vAssert("C36/stream-opens", err == nil && stream != nil)
 	if err != nil {
 		return
@@ -120,6 +131,12 @@ func VerifStreamRetry(arg string) {
 		var m string
 		rerr := stream.RecvMsg(&m)
 		reopened := w.opened - openedBefore
+		if w.cancelledAt > 0 {
+			vCover("cancelled-while-reopening", true)
+			// once the caller has cancelled, the stream is not reopened again
+			vAssert("C36/no-reopen-after-the-caller-cancelled", w.opened == w.cancelledAt)
+			return
+		}
 		// the retry budget: at most Max retries after the first reopen attempt
 		vAssert("C36/reopen-attempts-within-budget", reopened <= max+1)
 		newest := w.streams[len(w.streams)-1]
